@@ -11,6 +11,7 @@ import (
 	"strings"
 	"sync"
 	"sync/atomic"
+	"time"
 
 	"verif/ev"
 	"verif/rig"
@@ -66,7 +67,39 @@ func plans(k, maxCopies, maxLate, maxUnknown int) []*rig.MuxPlan {
 	return out
 }
 
+// raceStage runs the hook-free stress under the race detector (diagnostic:
+// the property is decided by the behavioural oracle, a race report in the
+// library is recorded in evidence).
+func raceStage(run *ev.Run) {
+	if os.Getenv("VERIF_RACE_STAGE") != "" || !run.Thorough() {
+		return
+	}
+	reports, ok, err := rig.RaceStage(10*time.Minute, "race-stage")
+	if !ok {
+		run.Set("race_stage", "skipped (no -race twin built)")
+		return
+	}
+	if err != nil {
+		run.Set("race_stage", "failed: "+err.Error())
+		return
+	}
+	run.Set("race_reports_distinct", len(reports))
+	run.Set("race_reports", reports)
+}
+
 func main() {
+	if ev.ArgTier() == "race-stage" {
+		// child under -race: stress only, no evidence
+		os.Setenv("VERIF_OUT", ev.ScratchDir())
+		run := ev.New("C01", "quick", "exploration")
+		nats, err := rig.StartNats()
+		if err != nil {
+			os.Exit(0)
+		}
+		stress(run, nats)
+		nats.Stop()
+		os.Exit(0)
+	}
 	run := ev.New("C01", ev.ArgTier(), "exploration")
 	run.Rule("(a) enforced schedules: for k callers sharing one transport, every fate combination (answered / never answered in time), 1..n duplicate responses, late responses and never-issued op ids, ALL interleavings of the hook-delimited steps start/lookup(inject)/deliver/timeout/unregister+return are enumerated (DFS, symmetric copies merged) and enforced on the real adapter and NATS transports; (b) hook-free stress with PRNG response plans and up to 32 concurrent callers; (c) porcupine on the real registry. distinct = distinct (leg, plan, schedule) strings executed + distinct stress plan shapes")
 	run.Assume("yield points compiled in with -tags verif do not change behaviour when no goroutine is parked")
@@ -194,6 +227,7 @@ func main() {
 
 	stress(run, nats)
 	registryHistories(run)
+	raceStage(run)
 	os.Exit(run.Finish())
 }
 
